@@ -193,6 +193,7 @@ def run(tier: str) -> int:
     run_family_t(chk, tier)
     run_family_p(chk, tier)
     run_family_v(chk, tier, sorted(seen))
+    run_family_r(chk, tier)
     for id_ in list(metas)[:: max(1, len(metas) // 4)][:4]:
         chk.sample({k: metas[id_][k] for k in ("fam", "toks", "src", "opts", "out")})
     chk.exhaustive = True
@@ -313,6 +314,46 @@ def run_family_v(chk: Check, tier: str, keys) -> None:
             chk.violation("SameDocument(marko)" if dm else "SameDocument(markdown-it)",
                           dict(m, first_diff_marko=dm, marko_in=a[max(0, dm - 2): dm + 2], marko_out=b[max(0, dm - 2): dm + 2]))
     chk.notes["family_S_plus"] = stats
+
+
+def eval_r(job):
+    name, x, opts = job
+    r = docs.eval_text(x, opts)
+    r.update(src=x, opts=opts, doc=name)
+    r.pop("mdit_tree_in", None)
+    return r
+
+
+def run_family_r(chk: Check, tier: str) -> None:
+    """the construct-rich corpus under several widths and both wrap modes (typography and cleanups off, list spacing preserve)"""
+    from harness import corpus
+    widths = (88, 30, 0) if tier == "quick" else (88, 60, 40, 30, 20, 12, 0, -1)
+    # the 'tags' document is C06's subject: flowmark deliberately re-separates a list from the tag lines that enclose it
+    jobs = [(n, x, dict(width=w, semantic=sem, cleanups=False)) for n, x in corpus.RICH if n != "tags" for w in widths for sem in (False, True)]
+    traces, metas = [], {}
+    for tid, (job, r) in enumerate(zip(jobs, pmap(eval_r, jobs, chunksize=10)), 1):
+        chk.evaluations += 1
+        if "exc" in r:
+            chk.violation("NoException", dict(doc=job[0], opts=job[2], exc=r["exc"]))
+            continue
+        traces.append(docs.trace_of(tid, "R", r))
+        metas[tid] = dict(fam="R", doc=job[0], src=r["src"], opts=r["opts"], out=r["out1"])
+        chk.nontriv(("R", job[0], docs.dumps(job[2])))
+    reports, gen, dist = tlc.validate_traces("DocTrace", traces, cfg=docs.DOC_TRACE_CFG, timeout=3000)
+    chk.states += dist
+    chk.transitions += gen
+    chk.traces += len(traces)
+    bad = {}
+    for t in traces:
+        _, id_, _acc, dm, di, _idem, _rt, _pfx, _hz = reports[t["id"]]
+        if dm or di:
+            m = metas[id_]
+            bad[m["doc"]] = bad.get(m["doc"], 0) + 1
+            a, b = (t["tm_in"], t["tm_out"]) if dm else (t["ti_in"], t["ti_out"])
+            d = dm or di
+            chk.violation("SameDocument(marko)" if dm else "SameDocument(markdown-it)",
+                          dict(m, first_diff=d, tree_in=a[max(0, d - 2): d + 2], tree_out=b[max(0, d - 2): d + 2]))
+    chk.notes["family_R"] = dict(cases=len(traces), failing_by_doc=bad)
 
 
 def run_family_t(chk: Check, tier: str) -> None:
